@@ -376,11 +376,19 @@ func (node *Node) ProcessBlock(ctx context.Context, block wire.Block) error {
 	// Send updates for relevant txs.
 	for i, tx := range txs {
 		if txsIsNew[i] {
+			isSafe := txsIsSafe[i]
+			if previous, err := handlersstorage.FetchTxState(ctx, node.store,
+				*tx.TxHash()); err == nil && (previous.State.UnSafe || previous.State.Cancelled) {
+				// Delivered before a reorg orphaned its block and reported unsafe then, so it is
+				// never reported safe.
+				isSafe = false
+			}
+
 			txState := &client.Tx{
 				Tx: tx,
 				State: client.TxState{
-					Safe:             txsIsSafe[i],
-					UnSafe:           !txsIsSafe[i],
+					Safe:             isSafe,
+					UnSafe:           !isSafe,
 					Cancelled:        false,
 					UnconfirmedDepth: 0,
 					MerkleProof:      convertMerkleProof(merkleProofs[i], header),
